@@ -1,5 +1,7 @@
 import PySMT.Proofs.WalkerMore
 import PySMT.Proofs.WalkerInstSimp
+import PySMT.Proofs.WalkerBuild
+import PySMT.Proofs.TreeWalker
 
 /-!
 # C20 — work linear in the number of distinct nodes, no recursion over the nesting depth
@@ -11,12 +13,23 @@ over an arbitrary finite DAG (`children`, `rank`), an arbitrary callback that ma
 universally quantified in every theorem below: no bound on size, sharing or depth.  `V` is any list containing the
 nodes below `n` (for a request: all nodes of the DAG) and `cost g V` the number of edges leaving them.
 
+Instances stated below: the simplifier, the free-variables oracle, the tree-size measure (plain key space), the
+size oracle on its real key space `(measure, formula)` (`Graph.tagged`), the polarity CNF-izer's key space with its
+own child function (`Graph.tagged` + `Graph.withChildren`), type checking over a whole build sequence, and the
+non-memoising `TreeWalker` of walkers/tree.py (visits = TREE size).  The other operations of the property
+(substitution: `Props/C14.lean`; logic detection, nnf / prenex / aig, DAG printing) are covered by the generic
+theorems as instances of `DagWalker` only, through the correspondence run.  Callbacks are functions of
+`(node, results of the children)`: a callback that re-enters `walk` on the same walker is outside the theorems.
+
 Not proved here (observed by the correspondence run): CPython's recursion limit, the SMT-LIB parser's token stack,
-`FNode.bv_width` (a `while` loop after the F26 repair).
+the size of the DAG printer's output, `FNode.bv_width` (a `while` loop after the F26 repair).
 -/
 
 namespace PySMT.C20
 open PySMT.Walker
+
+/-- diamond chain used in the examples: node k+1 has the two children k, k (tree size 15, 4 distinct nodes) -/
+def dia_ : Graph Nat := PySMT.WalkerDriver.mkGraph #[[], [0, 0], [1, 1], [2, 2]]
 
 variable {M N R E : Type} [DecidableEq N] [MemoLike M N R] [LawfulMemo M N R]
 
@@ -48,9 +61,11 @@ theorem steps_le_2E (g : Graph N) (d : N → Bool) (f0 : N → List R → Except
     (walk g d (fun _ => f0) inval shortcut fuel n s).2.pushes ≤ s.pushes + (2 * cost g V + 2) :=
   Walker.steps_le_2E g d f0 inval shortcut fuel n s hi V hV hfuel
 
-/-- `walk` is the `fuel`-fold iteration of the loop body `step` on an explicit work stack (first conjunct: there is no
-    other control flow), and at every moment of the loop that stack holds at most `2·edges + 2` entries: the
-    machine's storage is linear in the DAG and nothing in it depends on `rank` (the nesting depth). -/
+/-- At every moment of the loop the explicit work stack holds at most `2·edges + 2` entries (second conjunct): the
+    machine's storage is linear in the DAG and nothing in it depends on `rank` (the nesting depth).
+    The first conjunct, `walk = finish ∘ iter step`, is DEFINITIONAL: it unfolds how the model was written (a `fuel`-fold
+    iteration of the loop body, no other control flow) and says nothing about Python by itself; that the Python loop is
+    this iteration is what the correspondence run checks (pushes, iterations and stack length compared exactly). -/
 theorem no_recursion (g : Graph N) (d : N → Bool) (f0 : N → List R → Except E R) (inval shortcut : Bool)
     (fuel : Nat) (n : N) (s : WState M N) (hi : Idle g d f0 s) (V : List N) (hV : Covers g d n V)
     (hmiss : (if shortcut then look s.memo n else none) = none) :
@@ -74,40 +89,45 @@ theorem typecheck_const (g : Graph N) (d : N → Bool) (f0 : N → List R → Ex
     only, closed under arguments -- every state reachable by earlier walks of the same walker, and the fresh one. -/
 
 /-- For any bottom-up function `F (.node op args p) = g (.node op args p) (args.map F)`: the walk with callbacks `g`
-    returns `F t`, invokes the callback exactly once per distinct sub-term of `t` not memoised before, and leaves a
-    walker of the same kind; `2·size t` loop iterations suffice. -/
+    returns `F t`, invokes the callback exactly once per distinct sub-term of `t` not memoised before, performs at most
+    `dagBound t = 2·(edges of the DAG of t) + 2` loop iterations and pushes (`dagNodes t = t.subterms.eraseDups`: every
+    distinct sub-term counted once -- linear in the DAG even where the tree `t.size` is exponential), and leaves a
+    walker of the same kind. -/
 theorem walk_eq_fold {M R E : Type} [MemoLike M Term R] [LawfulMemo M Term R]
     (g : Term → List R → R) (F : Term → R) (hF : ∀ t, F t = g t (t.args.map F))
     (inval shortcut : Bool) (fuel : Nat) (t : Term) (s : WState M Term) (hi : FoldIdle (fun _ => false) F s)
-    (hfuel : 2 * t.size ≤ fuel) :
+    (hfuel : dagBound t ≤ fuel) :
     let r := walk termGraph (fun _ => false) (fun _ => cbOf (E := E) g) inval shortcut fuel t s
     r.1 = .ok (F t) ∧
     (∃ new, r.2.trace = new ++ s.trace ∧ new.Nodup ∧
         (∀ x, x ∈ new ↔ (x ∈ t.subterms ∧ look s.memo x = none)) ∧ r.2.calls = s.calls + new.length) ∧
+    (r.2.iters ≤ s.iters + dagBound t ∧ r.2.pushes ≤ s.pushes + dagBound t) ∧
     FoldIdle (fun _ => false) F r.2 :=
   Walker.walk_eq_fold g F hF inval shortcut fuel t s hi hfuel
 
 /-- C01's model `simp (.node op args p) = rule_op p (args.map simp)` is computed by the `Simplifier` walk. -/
 theorem simplify_walk_eq_simp {M E : Type} [MemoLike M Term Term] [LawfulMemo M Term Term]
     (inval shortcut : Bool) (fuel : Nat) (t : Term) (s : WState M Term)
-    (hi : FoldIdle (fun _ => false) Simplifier.simp s) (hfuel : 2 * t.size ≤ fuel) :
+    (hi : FoldIdle (fun _ => false) Simplifier.simp s) (hfuel : dagBound t ≤ fuel) :
     let r := walk termGraph (fun _ => false) (fun _ => cbOf (E := E) (simpCb Simplifier.ruleOf))
                inval shortcut fuel t s
     r.1 = .ok (Simplifier.simp t) ∧
     (∃ new, r.2.trace = new ++ s.trace ∧ new.Nodup ∧
         (∀ x, x ∈ new ↔ (x ∈ t.subterms ∧ look s.memo x = none)) ∧ r.2.calls = s.calls + new.length) ∧
+    (r.2.iters ≤ s.iters + dagBound t ∧ r.2.pushes ≤ s.pushes + dagBound t) ∧
     FoldIdle (fun _ => false) Simplifier.simp r.2 :=
   Walker.simplify_walk_eq_simp inval shortcut fuel t s hi hfuel
 
 /-- C12's `fvO` is computed by the `FreeVarsOracle` walk. -/
 theorem freevars_walk_eq {M E : Type} [MemoLike M Term (List Sym)] [LawfulMemo M Term (List Sym)]
     (inval shortcut : Bool) (fuel : Nat) (t : Term) (s : WState M Term)
-    (hi : FoldIdle (fun _ => false) Oracles.fvO s) (hfuel : 2 * t.size ≤ fuel) :
+    (hi : FoldIdle (fun _ => false) Oracles.fvO s) (hfuel : dagBound t ≤ fuel) :
     let r := walk termGraph (fun _ => false)
       (fun _ => cbOf (E := E) (fun n rs => Oracles.fvNode n.op n.payload rs)) inval shortcut fuel t s
     r.1 = .ok (Oracles.fvO t) ∧
     (∃ new, r.2.trace = new ++ s.trace ∧ new.Nodup ∧
         (∀ x, x ∈ new ↔ (x ∈ t.subterms ∧ look s.memo x = none)) ∧ r.2.calls = s.calls + new.length) ∧
+    (r.2.iters ≤ s.iters + dagBound t ∧ r.2.pushes ≤ s.pushes + dagBound t) ∧
     FoldIdle (fun _ => false) Oracles.fvO r.2 :=
   Walker.freevars_walk_eq inval shortcut fuel t s hi hfuel
 
@@ -115,21 +135,92 @@ theorem freevars_walk_eq {M E : Type} [MemoLike M Term (List Sym)] [LawfulMemo M
     callback per distinct sub-term. -/
 theorem size_tree_walk_eq {M E : Type} [MemoLike M Term Nat] [LawfulMemo M Term Nat]
     (inval shortcut : Bool) (fuel : Nat) (t : Term) (s : WState M Term)
-    (hi : FoldIdle (fun _ => false) Oracles.treeO s) (hfuel : 2 * t.size ≤ fuel) :
+    (hi : FoldIdle (fun _ => false) Oracles.treeO s) (hfuel : dagBound t ≤ fuel) :
     let r := walk termGraph (fun _ => false)
       (fun _ => cbOf (E := E) (fun (_ : Term) rs => 1 + rs.sum)) inval shortcut fuel t s
     r.1 = .ok (Oracles.treeO t) ∧
     (∃ new, r.2.trace = new ++ s.trace ∧ new.Nodup ∧
         (∀ x, x ∈ new ↔ (x ∈ t.subterms ∧ look s.memo x = none)) ∧ r.2.calls = s.calls + new.length) ∧
+    (r.2.iters ≤ s.iters + dagBound t ∧ r.2.pushes ≤ s.pushes + dagBound t) ∧
     FoldIdle (fun _ => false) Oracles.treeO r.2 :=
   Walker.size_tree_walk_eq inval shortcut fuel t s hi hfuel
 
--- non-vacuity: the fresh walker satisfies the hypotheses, for every term, with the budget `2·size t`
+/-- Type checking at construction over a whole build sequence: from an idle manager, `create_node` on the contents
+    `cs` in order (`Ready`: when a content is reached its children have been type-checked -- they were built earlier
+    in the sequence or before it; `htot`: the type checker's callbacks return `None` rather than raise) invokes the
+    type checker's callback exactly once on each distinct content not type-checked before, and on nothing else. -/
+theorem build_sequence_calls {T : Type} [MemoLike M N (Option T)] [LawfulMemo M N (Option T)]
+    (g : Graph N) (tc0 : N → List (Option T) → Except E (Option T))
+    (htot : ∀ n args, ∃ r, tc0 n args = .ok r) (fuel : Nat) (V : List N) (hfuel : 2 * cost g V + 2 ≤ fuel)
+    (cs : List N) (hV : ∀ c ∈ cs, Covers g (fun _ => false) c V)
+    (s : Mgr M N) (hi : Idle g (fun _ => false) tc0 s.stc) (hr : Ready g tc0 fuel cs s) :
+    ∃ new, (buildSeq g tc0 fuel cs s).stc.trace = new ++ s.stc.trace ∧ new.Nodup ∧
+      (∀ x, x ∈ new ↔ (x ∈ cs ∧ look s.stc.memo x = none)) ∧
+      (buildSeq g tc0 fuel cs s).stc.calls = s.stc.calls + new.length ∧
+      Idle g (fun _ => false) tc0 (buildSeq g tc0 fuel cs s).stc :=
+  Walker.build_sequence_calls g tc0 htot fuel V hfuel cs hV s hi hr
+
+/-- `SizeOracle` on its real key space `(measure, formula)` (`Graph.tagged`): one callback per distinct not yet
+    memoised key `(m, sub-term)`, at most `2·edges + 2` iterations and pushes. -/
+theorem size_tagged_walk_linear {M E : Type} [MemoLike M (NatMeasure × Term) Nat] [LawfulMemo M (NatMeasure × Term) Nat]
+    (f0 : NatMeasure × Term → List Nat → Except E Nat) (inval : Bool) (fuel : Nat) (k : NatMeasure × Term)
+    (s : WState M (NatMeasure × Term)) (hi : Idle (termGraph.tagged NatMeasure) (fun _ => false) f0 s)
+    (V : List (NatMeasure × Term)) (hV : Covers (termGraph.tagged NatMeasure) (fun _ => false) k V)
+    (hfuel : 2 * cost (termGraph.tagged NatMeasure) V + 2 ≤ fuel) :
+    (walk (termGraph.tagged NatMeasure) (fun _ => false) (fun _ => f0) inval false fuel k s).1
+        = ofSpec (spec (termGraph.tagged NatMeasure) (fun _ => false) f0 k) ∧
+    (walk (termGraph.tagged NatMeasure) (fun _ => false) (fun _ => f0) inval false fuel k s).2.iters
+        ≤ s.iters + (2 * cost (termGraph.tagged NatMeasure) V + 2) ∧
+    (walk (termGraph.tagged NatMeasure) (fun _ => false) (fun _ => f0) inval false fuel k s).2.pushes
+        ≤ s.pushes + (2 * cost (termGraph.tagged NatMeasure) V + 2) :=
+  ⟨Walker.walk_correct _ _ f0 inval false fuel k s hi V hV hfuel,
+   Walker.steps_le_2E _ _ f0 inval false fuel k s hi V hV hfuel⟩
+
+/-- `PolarityCNFizer`: keys `(polarity, formula)` and its own `_get_children` (`polGraph` = `Graph.tagged` +
+    `Graph.withChildren`): the walk returns the recursive specification over that child function and is linear. -/
+theorem polarity_walk_linear {M R E : Type} [MemoLike M (Bool × Term) R] [LawfulMemo M (Bool × Term) R]
+    (f0 : Bool × Term → List R → Except E R) (inval : Bool) (fuel : Nat) (k : Bool × Term)
+    (s : WState M (Bool × Term)) (hi : Idle polGraph (fun _ => false) f0 s)
+    (V : List (Bool × Term)) (hV : Covers polGraph (fun _ => false) k V) (hfuel : 2 * cost polGraph V + 2 ≤ fuel) :
+    (walk polGraph (fun _ => false) (fun _ => f0) inval false fuel k s).1 = ofSpec (spec polGraph (fun _ => false) f0 k) ∧
+    (walk polGraph (fun _ => false) (fun _ => f0) inval false fuel k s).2.iters ≤ s.iters + (2 * cost polGraph V + 2) ∧
+    (walk polGraph (fun _ => false) (fun _ => f0) inval false fuel k s).2.pushes ≤ s.pushes + (2 * cost polGraph V + 2) :=
+  ⟨Walker.walk_correct _ _ f0 inval false fuel k s hi V hV hfuel,
+   Walker.steps_le_2E _ _ f0 inval false fuel k s hi V hV hfuel⟩
+
+/-! ### `TreeWalker` (walkers/tree.py:43-84): a stack of generators, no memo -/
+
+/-- `TreeWalker.walk` terminates with an empty stack after invoking exactly `tsize root` walk functions -- the size
+    of the TREE expansion (`gen n`: the walk function of `n` is a generator yielding its children): a sub-formula with
+    k occurrences is walked k times, so HR serialisation and tree-style SMT-LIB printing are linear in the tree, NOT
+    in the DAG -- with at most `2·tsize root` loop iterations. -/
+theorem tree_walk_visits (g : Graph N) (gen : N → Bool) (root : N) (fuel : Nat)
+    (hfuel : 2 * TreeWalker.tsize g gen root ≤ fuel) :
+    (TreeWalker.twalk g gen fuel root).stack = [] ∧
+    (TreeWalker.twalk g gen fuel root).visits.length = TreeWalker.tsize g gen root ∧
+    (TreeWalker.twalk g gen fuel root).steps ≤ 2 * TreeWalker.tsize g gen root :=
+  TreeWalker.tree_walk_visits g gen root fuel hfuel
+
+/-- At every moment the explicit stack of generators holds at most `height root` frames (the nesting depth); the loop
+    is the iteration `titer` of `tstep`: no call depth of the host grows with the nesting -- for walk functions that
+    `yield` their children.  (The string operators of `HRPrinter` / `SmtPrinter` call `self.walk` re-entrantly instead:
+    finding F46.) -/
+theorem tree_walk_stack (g : Graph N) (gen : N → Bool) (root : N) (hg : gen root = true) (i : Nat) :
+    (TreeWalker.titer g gen i ⟨[g.children root], [root], 0⟩).stack.length ≤ TreeWalker.height g gen root :=
+  TreeWalker.tree_walk_stack g gen root hg i
+
+-- non-vacuity: the fresh walker satisfies the hypotheses, for every term, with the budget `dagBound t`
 example : FoldIdle (fun _ => false) Simplifier.simp (WState.init : WState (AMemo Term Term) Term) := foldIdle_init _ _
 example (t : Term) :
-    (walk termGraph (fun _ => false) (fun _ => cbOf (E := Unit) (simpCb Simplifier.ruleOf)) false true (2 * t.size) t
+    (walk termGraph (fun _ => false) (fun _ => cbOf (E := Unit) (simpCb Simplifier.ruleOf)) false true (dagBound t) t
         (WState.init : WState (AMemo Term Term) Term)).1 = .ok (Simplifier.simp t) :=
   (Walker.simplify_walk_eq_simp false true _ t _ (foldIdle_init _ _) (Nat.le_refl _)).1
+
+-- non-vacuity of the new instances: fresh walkers / managers, an empty and a one-element build sequence
+example : Idle polGraph (fun _ => false) (fun (_ : Bool × Term) (rs : List Nat) => (.ok rs.sum : Except Unit Nat))
+    (WState.init : WState (AMemo (Bool × Term) Nat) (Bool × Term)) := idle_init _ _ _
+example : TreeWalker.tsize dia_ (fun _ => true) 3 = 15 ∧ TreeWalker.height dia_ (fun _ => true) 3 = 4 := by
+  simp [TreeWalker.tsize_eq, TreeWalker.height_eq, dia_, PySMT.WalkerDriver.mkGraph, TreeWalker.listMax]
 
 /-! ### Non-vacuity: a diamond chain (tree size 2^4 − 1 = 15, 4 distinct nodes) -/
 
